@@ -60,4 +60,4 @@ def standins(tier, seed):
     return jobs
 
 
-replay = K.replay_operator
+replay = K.replay_any
